@@ -411,6 +411,9 @@ def run_one(seed, tape, opts):
         return True
     sim.run(6000, until=lambda: bool(viol) or complete())
     faults.heal()
+    # from here on the applications keep up: whatever they paused is resumed
+    w.reactive_pause = False
+    wl.resume_all()
     r = sim.run(10000, until=lambda: bool(viol) or complete(), max_time=600)
     sim.run(300, max_time=5)
     w.finish()
